@@ -156,6 +156,9 @@ func (m *baseMocker) callback(args []reflect.Value) (results []reflect.Value) {
 func (m *baseMocker) Cancel() {
 	if m.guard != nil {
 		m.guard.Cancel()
+		// 已取消的 mocker 再次 Cancel(比如之后的 builder.Reset)时不能再次还原指令,
+		// 否则会覆盖掉之后其它 builder 对同一个函数的 mock
+		m.guard = nil
 	}
 	m.when = nil
 	m.origin = nil
